@@ -30,6 +30,9 @@ pub struct ScriptCase {
     /// Some(i): parameter i has no room to move (min = max = its value), as a cell ratio that sits on 0.1 has
     #[serde(default)]
     pub fixed: Option<u16>,
+    /// parameters that are driven by two basis handles each (a user-written state may hand out two handles on one value)
+    #[serde(default)]
+    pub twins: Vec<u16>,
 }
 
 fn any_cfg(max_steps: u64, max_loops: u64) -> BoxedStrategy<OptCfg> {
@@ -57,8 +60,8 @@ fn c06_decision() -> BoxedStrategy<Decision> {
 }
 
 fn script_strat(_: &Ctx) -> BoxedStrategy<ScriptCase> {
-    (any_cfg(4000, 60), 2usize..=8, any::<bool>(), proptest::collection::vec(c06_decision(), 1..64), prop_oneof![5 => Just(None), 1 => (any::<u16>(), prop_oneof![0.01..1.0f64, -1.0..-0.01f64]).prop_map(Some)], prop_oneof![5 => Just(None), 1 => any::<u16>().prop_map(Some)])
-        .prop_map(|(cfg, n, wide, decisions, outside, fixed)| ScriptCase { cfg, n, wide, decisions, outside, fixed })
+    (any_cfg(4000, 60), 2usize..=8, any::<bool>(), proptest::collection::vec(c06_decision(), 1..64), prop_oneof![5 => Just(None), 1 => (any::<u16>(), prop_oneof![0.01..1.0f64, -1.0..-0.01f64]).prop_map(Some)], prop_oneof![5 => Just(None), 1 => any::<u16>().prop_map(Some)], prop_oneof![4 => Just(vec![]), 1 => proptest::collection::vec(any::<u16>(), 1..3)])
+        .prop_map(|(cfg, n, wide, decisions, outside, fixed, twins)| ScriptCase { cfg, n, wide, decisions, outside, fixed, twins })
         .boxed()
 }
 
@@ -76,7 +79,8 @@ fn script_oracle(c: &ScriptCase, rec: &Rec, _: &Ctx) -> Result<(), String> {
     }
     let kt_zero = c.cfg.kt_start == 0.;
     let policy = ForcedPolicy { decisions: c.decisions.clone(), base: 1.0, proposals: c.cfg.proposals() };
-    let out = run_script(&c.cfg, &init, &bounds, kt_zero, true, Box::new(policy));
+    let twins: Vec<usize> = c.twins.iter().map(|t| crate::engine::idx(*t, c.n)).collect();
+    let out = crate::opt::run_script_twins(&c.cfg, &init, &bounds, &twins, kt_zero, true, crate::probe::Mode::Agnostic, Box::new(policy));
     rec.eval(out.steps.len() as u64 + 1);
     if out.panicked.is_some() {
         rec.class("panicked-not-judged-here");
